@@ -14,12 +14,21 @@ Tree representation (nested tuples, hashable):
    ("lab", s)                  Lj: s
    ("sw", e, shape, (s,..))    switch (e) { shape[i]: s_i ... }   shape[i] in 0,1,2 (case value) or "d" (default)
    ("V", e)                    V(e);  records the value of e
+   ("swd", e, s)               switch (e) s     the body is ANY statement; its case labels are ("case", ..) nodes at any depth
+   ("case", l, s)              case l: s / default: s   (l in 0,1,2,"d"; None = hole) - belongs to the innermost enclosing "swd";
+                               costs nothing, so `switch (C2()) do { case 0: T(1); case 1: T(2); } while (C());` has size 3
  expressions
    ("C",) tape bit   ("C2",) two tape bits   ("Te",) T(k) value k   ("Ze",) Z(k) value 0
+   typed tape bits (one tape bit b each, event 1000+b; the operand type decides how its truth value has to be tested):
+   ("Cc",) char b ? -128 : 0        ("Cl",) long b ? 0x300000000 : 0 (only high bits set)   ("Cf",) float b ? 0.25f : 0
+   ("Cd",) double b ? 0.5 : -0.0    ("Cld",) long double b ? 0.5L : 0    ("Cp",) void * b ? (void *)0x700000000 : 0
+   Expressions are statically typed (etype): ?: and a ?: b need two arithmetic or two pointer operands, a switch
+   selector an integer type; V() of a pointer is written V((long)e).
    ("and",a,b) ("or",a,b) ("cond",a,b,c) ("elvis",a,b) ("comma",a,b) ("not",a) ("se", s|None, e)   ({ s e; })
 
 Size of a tree = number of composite nodes + number of leaves other than the plain marker statement T and the plain
-condition C()/C2() ("costly leaves": jumps, empty statement, T/Z used as operands).
+condition C()/C2() ("costly leaves": jumps, empty statement, T/Z and the typed tape bits used as operands; an alphabet
+with "tfree" makes the typed tape bits free like C()).
 """
 import functools, itertools, struct
 
@@ -31,7 +40,12 @@ def table_file(progs_meta, rows):
     return struct.pack("<ii", len(progs_meta), len(rows)) + b"".join(struct.pack("<ii", r, L) for r, L in progs_meta) + b"".join(rows)
 
 STMT_LEAVES = ("T", "E", "brk", "cont", "ret", "goto", "cgoto")
-EXPR_LEAVES = ("C", "C2", "Te", "Ze")
+TYPED_LEAVES = ("Cc", "Cl", "Cf", "Cd", "Cld", "Cp")
+LEAF_TYPE = {"C": "int", "C2": "int", "Te": "int", "Ze": "int", "Cc": "char", "Cl": "long", "Cf": "float", "Cd": "double",
+             "Cld": "ldouble", "Cp": "ptr"}
+LEAF_DECL = ("char Cc(void); long Cl(void); float Cf(void); double Cd(void); long double Cld(void); void *Cp(void);")
+RANK = {"char": 0, "int": 1, "long": 2, "float": 3, "double": 4, "ldouble": 5}
+EXPR_LEAVES = ("C", "C2", "Te", "Ze") + TYPED_LEAVES
 EXPR_KINDS = EXPR_LEAVES + ("and", "or", "cond", "elvis", "comma", "not", "se")
 
 SWITCH_SHAPES = [(0,), ("d",), (0, 1), ("d", 0), (0, "d"), (0, 1, 2), ("d", 0, 1), (0, "d", 1), (0, 1, "d")]
@@ -39,6 +53,37 @@ SWITCH_SHAPES = [(0,), ("d",), (0, 1), ("d", 0), (0, "d"), (0, 1, 2), ("d", 0, 1
 
 def is_expr(t):
     return t[0] in EXPR_KINDS
+
+
+@functools.lru_cache(maxsize=None)
+def etype(t):
+    """static type of an expression tree (C11 6.5.15p5/6, 6.5.17, usual arithmetic conversions); ValueError = constraint violation"""
+    k = t[0]
+    if k in LEAF_TYPE: return LEAF_TYPE[k]
+    if k in ("and", "or", "not"):
+        for c in t[1:]: etype(c)
+        return "int"
+    if k == "comma":
+        etype(t[1]); return etype(t[2])
+    if k == "se":
+        return etype(t[2])
+    if k in ("cond", "elvis"):
+        etype(t[1])
+        a, b = etype(t[-2]), etype(t[-1])
+        if a == "ptr" or b == "ptr":
+            if a != b: raise ValueError("pointer and arithmetic operand")
+            return "ptr"
+        r = max(RANK[a], RANK[b], RANK["int"])
+        return [n for n, v in RANK.items() if v == r][0]
+    raise ValueError(k)
+
+
+def typed_ok(t):
+    try:
+        etype(t)
+    except ValueError:
+        return False
+    return True
 
 
 def _splits(n, k):
@@ -52,7 +97,10 @@ def _splits(n, k):
 
 
 class Gen:
-    """alphabet flags: jumps (goto/cgoto leaves + labels), exprs (expression composites), switch, forvariants"""
+    """alphabet keys: empty ret goto cgoto label (leaves / labelled statements), for (tuple of for variants), fornocond, blk3,
+    switch (list of shapes), exprs (set of expression composites), exprleaves (T/Z operands), tleaves (tuple of typed tape
+    bits), tfree (typed tape bits cost nothing), swd (switch with a free-form body and case labels at any depth),
+    noloops / noblk (drop while/do/for resp. compound statements)"""
 
     def __init__(self, alphabet):
         self.al = alphabet
@@ -72,11 +120,11 @@ class Gen:
         return self._e[key]
 
     def _gen_s(self, n, ctx):
-        brk, cont, lab = ctx
+        brk, cont, lab, incase = ctx
         al = self.al
         out = []
         if n == 0:
-            return [("T",)]
+            out = [("T",)]
         if n == 1:
             if "empty" in al: out.append(("E",))
             if brk: out.append(("brk",))
@@ -85,26 +133,32 @@ class Gen:
             if "goto" in al: out.append(("goto", None))
             if "cgoto" in al: out.append(("cgoto",))
         m = n - 1
-        ectx = (brk, cont, False)           # expression evaluated as part of a non-loop statement
-        lctx = (False, False, False)        # loop / switch controlling expression: break/continue not generated there
-        body = (True, True, lab)
-        for a, b in _splits(m, 2):
+        ectx = (brk, cont, False, False)    # expression evaluated as part of a non-loop statement
+        lctx = (False, False, False, False) # loop / switch controlling expression: break/continue not generated there
+        body = (True, True, lab, incase)
+        for a, b in (_splits(m, 2) if n >= 1 else ()):
             for e in self.exprs(a, ectx):
                 for s in self.stmts(b, ctx):
                     out.append(("if", e, s))
-            for e in self.exprs(a, lctx):
-                for s in self.stmts(b, body):
-                    out.append(("while", e, s))
-                    out.append(("do", s, e))
-                    for v in al.get("for", (0,)):
-                        out.append(("for", v, e, s))
-            for s1 in self.stmts(a, ctx):
-                for s2 in self.stmts(b, ctx):
-                    out.append(("blk", s1, s2))
-        if "fornocond" in al:
+            if "noloops" not in al:
+                for e in self.exprs(a, lctx):
+                    for s in self.stmts(b, body):
+                        out.append(("while", e, s))
+                        out.append(("do", s, e))
+                        for v in al.get("for", (0,)):
+                            out.append(("for", v, e, s))
+            if "noblk" not in al:
+                for s1 in self.stmts(a, ctx):
+                    for s2 in self.stmts(b, ctx):
+                        out.append(("blk", s1, s2))
+            if "swd" in al:
+                for e in self.exprs(a, lctx, True):
+                    for s in self.stmts(b, (True, cont, lab, True)):
+                        out.append(("swd", e, s))
+        if n >= 1 and "fornocond" in al:
             for s in self.stmts(m, body):
                 out.append(("for", 1, None, s))
-        for a, b, c in _splits(m, 3):
+        for a, b, c in (_splits(m, 3) if n >= 1 else ()):
             for e in self.exprs(a, ectx):
                 for s1 in self.stmts(b, ctx):
                     for s2 in self.stmts(c, ctx):
@@ -114,11 +168,11 @@ class Gen:
                     for s2 in self.stmts(b, ctx):
                         for s3 in self.stmts(c, ctx):
                             out.append(("blk", s1, s2, s3))
-        if lab and "label" in al:
+        if n >= 1 and lab and "label" in al:
             for s in self.stmts(m, ctx):
                 out.append(("lab", s))
-        if "switch" in al:
-            sctx = (True, cont, lab)
+        if n >= 1 and "switch" in al:
+            sctx = (True, cont, lab, False)
             for shape in al["switch"]:
                 k = len(shape)
                 for sp in _splits(m, k + 1):
@@ -126,18 +180,28 @@ class Gen:
                         for secs in itertools.product(*[self.stmts(x, sctx) for x in sp[1:]]):
                             out.append(("sw", e, shape, tuple(secs)))
         if "exprs" in al:
-            for e in self.exprs(m + 1, ectx):     # V(e) itself is free; e is composite (size >= 1)
+            # V(e) itself is free; e is composite (size >= 1)
+            for e in (self.exprs(n, ectx) if n >= 1 else ()):
                 if e[0] not in EXPR_LEAVES:
                     out.append(("V", e))
+        if incase:
+            out += [("case", None, s) for s in out]      # a case label costs nothing; at most 3 per switch (see fill_cases)
         return out
 
     def _gen_e(self, n, ctx, sel):
         al = self.al
+        tl = al.get("tleaves", ())
+        INT = ("char", "int", "long")
         if n == 0:
-            return [("C2",)] if sel else [("C",)]
+            out = [("C2",)] if sel else [("C",)]
+            if "tfree" in al:
+                out += [(k,) for k in tl if not sel or LEAF_TYPE[k] in INT]
+            return out
         out = []
         if n == 1 and "exprleaves" in al:
             out += [("Te",), ("Ze",)]
+        if n == 1 and "tfree" not in al:
+            out += [(k,) for k in tl if not sel or LEAF_TYPE[k] in INT]
         if "exprs" not in al:
             return out
         m = n - 1
@@ -162,13 +226,17 @@ class Gen:
                     for y in self.exprs(b, ctx):
                         for z in self.exprs(c, ctx):
                             out.append(("cond", x, y, z))
+        if tl:
+            out = [e for e in out if typed_ok(e) and (not sel or etype(e) in INT)]
         return out
 
     def programs(self, n):
-        """all complete programs of size exactly n: goto holes filled with every label, jumps need a label"""
-        for t in self.stmts(n, (False, False, True)):
+        """all complete programs of size exactly n: goto holes filled with every label, jumps need a label; the case
+        holes of every free-form switch filled with every shape of that length"""
+        for t in self.stmts(n, (False, False, True, False)):
             for p in fill_gotos(t):
-                yield p
+                for q in fill_cases(p, self.al.get("swdshapes", SWITCH_SHAPES)):
+                    yield q
 
 
 def count_labels(t):
@@ -224,11 +292,84 @@ def fill_gotos(t):
         yield _fill(t, iter(choice))
 
 
+def _kids(t):
+    """child nodes of t in textual order"""
+    for c in t[1:]:
+        if isinstance(c, tuple) and c:
+            if isinstance(c[0], str) and c[0] != "d":
+                yield c
+            elif isinstance(c[0], tuple):
+                for x in c:
+                    yield x
+
+
+def _case_holes(t, out):
+    """pre-order list of the numbers of case holes of every free-form switch"""
+    if t[0] == "swd":
+        out.append(0)
+        me = len(out) - 1
+        _case_holes(t[1], out)
+        _holes_in(t[2], out, me)
+    else:
+        for c in _kids(t):
+            _case_holes(c, out)
+
+
+def _holes_in(t, out, me):
+    if t[0] == "swd":
+        _case_holes(t, out)
+        return
+    if t[0] == "case" and t[1] is None:
+        out[me] += 1
+    for c in _kids(t):
+        _holes_in(c, out, me)
+
+
+def _fill_cases(t, shapes, stack):
+    k = t[0]
+    if k == "swd":
+        sh = next(shapes)
+        e = _fill_cases(t[1], shapes, stack)
+        stack.append(iter(sh))
+        b = _fill_cases(t[2], shapes, stack)
+        stack.pop()
+        return ("swd", e, b)
+    if k == "case" and t[1] is None:
+        l = next(stack[-1])
+        return ("case", l, _fill_cases(t[2], shapes, stack))
+    out = [k]
+    for c in t[1:]:
+        if isinstance(c, tuple) and c and isinstance(c[0], str) and c[0] != "d":
+            out.append(_fill_cases(c, shapes, stack))
+        elif isinstance(c, tuple) and c and isinstance(c[0], tuple):
+            out.append(tuple(_fill_cases(x, shapes, stack) for x in c))
+        else:
+            out.append(c)
+    return tuple(out)
+
+
+def fill_cases(t, shapes=None):
+    """every assignment of case labels to the holes of the free-form switches: a switch with k holes gets, in textual
+    order, every shape of length k (k = 0: the body has no label and is never entered; k > 3: not generated)"""
+    shapes = SWITCH_SHAPES if shapes is None else shapes
+    holes = []
+    _case_holes(t, holes)
+    if not holes:
+        yield t
+        return
+    if max(holes) > 3:
+        return
+    opts = [[sh for sh in shapes if len(sh) == k] if k else [()] for k in holes]
+    for choice in itertools.product(*opts):
+        # a nested switch is numbered after its parent in _case_holes and entered after it in _fill_cases: same order
+        yield _fill_cases(t, iter(choice), [])
+
+
 def size(t):
     k = t[0]
     if k in ("T", "C", "C2"):
         return 0
-    n = 0 if k == "V" else 1
+    n = 0 if k in ("V", "case") else 1
     for c in t[1:]:
         if isinstance(c, tuple):
             if c and isinstance(c[0], str) and c[0] != "d":
@@ -250,10 +391,13 @@ def valid(t):
     return True
 
 
-def _valid(t, brk, cont, lab, nl):
+def _valid(t, brk, cont, lab, nl, cs=None):
+    """cs: the set of case labels already used by the innermost enclosing free-form switch (None: not inside one)"""
     k = t[0]
-    if k in ("T", "E", "ret", "C", "C2", "Te", "Ze"):
+    if k in ("T", "E", "ret") or k in LEAF_TYPE:
         return
+    if is_expr(t):
+        etype(t)                    # raises ValueError on a constraint violation
     if k == "brk":
         if not brk: raise ValueError
     elif k == "cont":
@@ -263,25 +407,34 @@ def _valid(t, brk, cont, lab, nl):
     elif k == "cgoto":
         if nl == 0: raise ValueError
     elif k == "if":
-        _valid(t[1], brk, cont, False, nl); _valid(t[2], brk, cont, lab, nl)
+        _valid(t[1], brk, cont, False, nl); _valid(t[2], brk, cont, lab, nl, cs)
     elif k == "ife":
-        _valid(t[1], brk, cont, False, nl); _valid(t[2], brk, cont, lab, nl); _valid(t[3], brk, cont, lab, nl)
+        _valid(t[1], brk, cont, False, nl); _valid(t[2], brk, cont, lab, nl, cs); _valid(t[3], brk, cont, lab, nl, cs)
     elif k == "while":
-        _valid(t[1], False, False, False, nl); _valid(t[2], True, True, lab, nl)
+        _valid(t[1], False, False, False, nl); _valid(t[2], True, True, lab, nl, cs)
     elif k == "do":
-        _valid(t[1], True, True, lab, nl); _valid(t[2], False, False, False, nl)
+        _valid(t[1], True, True, lab, nl, cs); _valid(t[2], False, False, False, nl)
     elif k == "for":
         if t[2] is not None: _valid(t[2], False, False, False, nl)
-        _valid(t[3], True, True, lab, nl)
+        _valid(t[3], True, True, lab, nl, cs)
     elif k == "blk":
-        for c in t[1:]: _valid(c, brk, cont, lab, nl)
+        for c in t[1:]: _valid(c, brk, cont, lab, nl, cs)
     elif k == "lab":
         if not lab: raise ValueError
-        _valid(t[1], brk, cont, lab, nl)
+        _valid(t[1], brk, cont, lab, nl, cs)
     elif k == "sw":
         _valid(t[1], False, False, False, nl)
+        if etype(t[1]) not in ("char", "int", "long"): raise ValueError
         if len(t[2]) != len(t[3]) or len(set(t[2])) != len(t[2]): raise ValueError
         for c in t[3]: _valid(c, True, cont, lab, nl)
+    elif k == "swd":
+        _valid(t[1], False, False, False, nl)
+        if etype(t[1]) not in ("char", "int", "long"): raise ValueError
+        _valid(t[2], True, cont, lab, nl, set())
+    elif k == "case":
+        if cs is None or t[1] is None or t[1] in cs or len(cs) >= 3: raise ValueError
+        cs.add(t[1])
+        _valid(t[2], brk, cont, lab, nl, cs)
     elif k == "V":
         _valid(t[1], brk, cont, False, nl)
     elif k in ("and", "or", "elvis", "comma"):
@@ -303,7 +456,8 @@ class Emit:
     node table rows, so that the two cannot drift apart."""
     K = dict(S_EXPR=1, S_V=2, S_EMPTY=3, S_BREAK=4, S_CONT=5, S_RET=6, S_GOTO=7, S_CGOTO=8, S_IF=9, S_WHILE=10, S_DO=11,
              S_FOR=12, S_BLOCK=13, S_LABEL=14, S_SWITCH=15, S_CASE=16,
-             E_C=32, E_C2=33, E_T=34, E_Z=35, E_AND=36, E_OR=37, E_COND=38, E_ELVIS=39, E_COMMA=40, E_NOT=41, E_STMT=42)
+             E_C=32, E_C2=33, E_T=34, E_Z=35, E_AND=36, E_OR=37, E_COND=38, E_ELVIS=39, E_COMMA=40, E_NOT=41, E_STMT=42,
+             E_CC=43, E_CL=44, E_CF=45, E_CD=46, E_CLD=47, E_CP=48)
 
     def __init__(self, tree, rows=None):
         self.rows = rows if rows is not None else []
@@ -341,7 +495,18 @@ class Emit:
             return "goto *tab[SEL(%d)];" % self.nlabels, self.node("S_CGOTO", self.nlabels), 0
         if k == "V":
             et, en = self.expr(t[1])
+            if etype(t[1]) == "ptr":
+                et = "(long)" + et
             return "V(%s);" % et, self.node("S_V", c=[en]), 0
+        if k == "swd":
+            et, en = self.expr(t[1]); st, sn, sm = self.stmt(t[2])
+            return "switch (%s) %s" % (et, st), self.node("S_SWITCH", c=[en, sn], lab=sm), sm
+        if k == "case":
+            self.pseudo += 1
+            pid = self.pseudo
+            st, sn, sm = self.stmt(t[2])
+            cm = sm | (1 << pid)
+            return ("default: %s" if t[1] == "d" else "case %d: %%s" % t[1]) % st, self.node("S_CASE", pid, -1 if t[1] == "d" else t[1], c=[sn], lab=cm), cm
         if k == "if":
             et, en = self.expr(t[1]); st, sn, sm = self.stmt(t[2])
             return "if (%s) %s" % (et, st), self.node("S_IF", c=[en, sn, -1], lab=sm), sm
@@ -403,6 +568,8 @@ class Emit:
             n = self.m(); return "T(%d)" % n, self.node("E_T", n)
         if k == "Ze":
             n = self.m(); return "Z(%d)" % n, self.node("E_Z", n)
+        if k in TYPED_LEAVES:
+            return "%s()" % k, self.node("E_" + k.upper())
         if k in ("and", "or", "elvis", "comma"):
             at, an = self.expr(t[1]); bt, bn = self.expr(t[2])
             op = {"and": "&&", "or": "||", "elvis": "?:", "comma": ","}[k]
